@@ -263,13 +263,16 @@ CHECKS = {
              'connectivity tables (supplied tables are used as given). Wrong-dimension and dangling tables are rejected with a warning; the '
              'face_edge _FillValue range check accepts every fill value outside [start, start + edges] and rejects every possible index; '
              'invalid start_index is refused; sensible_fill_value (string arithmetic, case split on the digit count) is all nines and '
-             'exceeds every node index and face x max-node slot. BOUNDED (native, not proved): the derivation of missing tables '
-             '(make_edge_node_array, make_face_edge_array, make_edge_face_array, make_face_face_array: loops carrying dictionaries and '
-             'counters over a symbolic number of faces are outside the verifier) -- checked on generated meshes against an independent '
-             'oracle for all 16 subsets of supplied tables x encodings.',
+             'exceeds every node index and face x max-node slot. Two of the derived tables are proved with loop invariants over any number of '
+             'faces / edges (real bodies, ghost counting functions): make_edge_face_array -- edge e lists exactly the faces whose face-edge row names it, '
+             'in increasing face order, the rest of its row missing (faces of up to 3 and up to 4 edges); make_face_face_array -- face f lists the face '
+             'across each interior edge it is on, in increasing edge order, boundary edges add nothing. Also proved: decoding a table does not modify the '
+             'dataset. BOUNDED (native, not proved): make_edge_node_array and make_face_edge_array (dictionaries keyed by node pairs) -- checked on '
+             'generated meshes against an independent oracle for all 16 subsets of supplied tables x encodings, as are the two proved ones.',
         note=TRUST + 'Assumed: VALID-UGRID (indexes in range, declared fill representation, face_dimension attribute present when the table is '
-             'stored columns first), NP-MA (masked arrays), PY-INT-STR-LEN, A-INT32-SIZE. Derived tables: bounded native stand-in only.',
-        technique='AST-generated verification conditions over the real source for decoding, validity and dimension discovery, z3; derived connectivity tables by bounded native comparison with an independent oracle (not proved)',
+             'stored columns first; for the derived tables: the edges of one face are distinct, an edge has at most two faces, the two faces of an interior edge differ, '
+             'a face is on at most max-node interior edges), NP-MA (masked arrays), PY-INT-STR-LEN, A-INT32-SIZE. make_edge_node_array / make_face_edge_array: bounded native stand-in only.',
+        technique='AST-generated verification conditions over the real source, z3: decoding, validity, dimension discovery; two derived tables by sidecar loop invariants with ghost counting functions; the two dictionary-based derivations by bounded native comparison with an independent oracle (not proved)',
         design_ref='Part III C10'),
     'C08': dict(
         category='proof',
